@@ -29,7 +29,9 @@ pub fn check_pair(a: &[u8], b: &[u8]) -> Result<bool, String> {
     if refmodel::is_normalized(a) && refmodel::is_normalized(b) {
         let ha = guarded(|| LongFuzzyHash::new_from_internals_near_raw(5, a, &[]))?;
         let hb = guarded(|| LongFuzzyHash::new_from_internals_near_raw(5, b, &[]))?;
-        let t = FuzzyHashCompareTarget::from(&ha);
+        // the targets are re-used objects: each held the OTHER string first (in the same and in the other block hash)
+        let mut t = FuzzyHashCompareTarget::from(&hb);
+        guarded(|| t.init_from(&ha))?;
         if guarded(|| t.block_hash_1().has_common_substring(b))? != got {
             return Err("target.block_hash_1().has_common_substring disagrees".into());
         }
@@ -38,7 +40,8 @@ pub fn check_pair(a: &[u8], b: &[u8]) -> Result<bool, String> {
         }
         let ha2 = guarded(|| LongFuzzyHash::new_from_internals_near_raw(5, &[], a))?;
         let hb2 = guarded(|| LongFuzzyHash::new_from_internals_near_raw(5, &[], b))?;
-        let t2 = FuzzyHashCompareTarget::from(&ha2);
+        let mut t2 = FuzzyHashCompareTarget::from(&hb2);
+        guarded(|| t2.init_from(&ha2))?;
         if guarded(|| t2.block_hash_2().has_common_substring(b))? != got || guarded(|| t2.is_comparison_candidate(&hb2))? != got {
             return Err("block hash 2 route disagrees".into());
         }
@@ -58,6 +61,21 @@ pub fn check_pair(a: &[u8], b: &[u8]) -> Result<bool, String> {
 pub fn replay(c: &Value) -> Result<(), String> {
     let a = unhex(c["a"].as_str().ok_or("a")?);
     let b = unhex(c["b"].as_str().ok_or("b")?);
+    if let Some(prev) = c["reuse_prev"].as_str() {
+        let prev = unhex(prev);
+        let mode = c["reuse_mode"].as_u64().unwrap_or(2);
+        let mut pa = BlockHashPositionArray::new();
+        guarded(|| {
+            pa.init_from(&prev);
+            match mode {
+                0 => pa.init_from(&[]),
+                1 => pa.clear(),
+                _ => {}
+            }
+            pa.init_from(&a);
+        })?;
+        via_pa(&pa, &a, &b)?;
+    }
     check_pair(&a, &b).map(|_| ())
 }
 fn case(a: &[u8], b: &[u8]) -> Value {
@@ -67,11 +85,26 @@ fn case(a: &[u8], b: &[u8]) -> Value {
 fn pairs_section(rep: &mut Report, name: &str, left: &[Vec<u8>], right: &[Vec<u8>], full_stride: usize) {
     let acc = par_shards(left.len(), |i, acc| {
         let a = &left[i];
-        let pa = match pa_of(a) {
-            Ok(p) => p,
-            Err(e) => {
-                acc.violation(format!("init_from a={}", hex(a)), e, case(a, &[]));
-                return;
+        // a re-used position array: it held a string of the right-hand family before (often one that shares
+        // windows with the strings it is then compared with), and every third one was emptied in between
+        let prev = &right[(i * 13 + 5) % right.len()];
+        let pa = {
+            let mut pa = BlockHashPositionArray::new();
+            let r = guarded(|| {
+                pa.init_from(prev);
+                match i % 3 {
+                    0 => pa.init_from(&[]),
+                    1 => pa.clear(),
+                    _ => {}
+                }
+                pa.init_from(a);
+            });
+            match r {
+                Ok(()) => pa,
+                Err(e) => {
+                    acc.violation(format!("init_from a={}", hex(a)), e, json!({"a": hex(a), "b": "", "reuse_prev": hex(prev), "reuse_mode": i % 3}));
+                    return;
+                }
             }
         };
         for (j, b) in right.iter().enumerate() {
@@ -83,7 +116,7 @@ fn pairs_section(rep: &mut Report, name: &str, left: &[Vec<u8>], right: &[Vec<u8
             match r {
                 Ok(true) => acc.count("answers_true", 1),
                 Ok(false) => acc.count("answers_false", 1),
-                Err(e) => acc.violation(format!("a={} b={}", hex(a), hex(b)), e, case(a, b)),
+                Err(e) => acc.violation(format!("a={} b={}", hex(a), hex(b)), e, json!({"a": hex(a), "b": hex(b), "reuse_prev": hex(prev), "reuse_mode": i % 3})),
             }
         }
         if i == left.len() - 1 {
@@ -166,7 +199,7 @@ pub fn run(ctx: &Ctx) -> Report {
     rep.set("exhaustive", true);
     rep.set(
         "rule",
-        "B1: ALL ordered pairs over alphabets of size 2 (|a|<=10,|b|<=12; thorough 11/14) and 3 (7/8; thorough 8/9); B2: a = run-free ramp of every length la<=64, b = junk over two symbols not in a, of every length lb<=64, with a copy of a[oa..oa+m] planted at ob for EVERY (oa, ob) and m in {5,6,7,8} (m<7 are near-misses); B3: all pairs of two-run and periodic strings (repeated, overlapping occurrences).  Oracle: naive scan.  A strided subset also goes through FuzzyHashCompareTarget (block_hash_1/2 accessors and is_comparison_candidate at equal, half and double block size).  Non-trivial = both strings have at least 7 symbols.",
+        "B1: ALL ordered pairs over alphabets of size 2 (|a|<=10,|b|<=12; thorough 11/14) and 3 (7/8; thorough 8/9); B2: a = run-free ramp of every length la<=64, b = junk over two symbols not in a, of every length lb<=64, with a copy of a[oa..oa+m] planted at ob for EVERY (oa, ob) and m in {5,6,7,8} (m<7 are near-misses); B3: all pairs of two-run and periodic strings (repeated, overlapping occurrences).  Oracle: naive scan.  The position array used for each left string is a re-used object (it held a string of the right-hand family before; every third one was emptied in between), and the comparison targets are re-initialised objects that held the other string first.  A strided subset also goes through FuzzyHashCompareTarget (block_hash_1/2 accessors and is_comparison_candidate at equal, half and double block size).  Non-trivial = both strings have at least 7 symbols.",
     );
     rep
 }
